@@ -165,7 +165,7 @@ def gen(stratum, rng, tier):
     lab = rng.choice(["int", "int", "int", "int-sparse", "str", "tuple"])
     noise = dict(dup=rng.choice([0, 0, 0.3]), loops=rng.choice([0, 0, 0.15]))
     if stratum == "sym-random":
-        n = rng.randint(1, 10)
+        n = rng.randint(1, 10) if rng.random() > 0.02 else 0  # the empty graph is a graph
         e = gc.und_gnp(rng, n, rng.choice([0.1, 0.2, 0.35, 0.5, 0.8]))
         return _mk(rng, n, _present(rng, n, e, ("sym",)), lab, **noise)
     if stratum == "asym-random":
@@ -394,7 +394,7 @@ def judge_pagerank(obs, res, T, p, who):
     if any(x < 0 for x in vals):
         obs.violate("pr.negative", f"{who}: {_s(sol)}")
     total = math.fsum(vals)
-    if abs(total - 1.0) > 1e-9:
+    if vals and abs(total - 1.0) > 1e-9:  # (no node: no score, nothing to sum)
         obs.violate("pr.sum", f"{who}: scores sum to {total!r} (damping={p['damping']}, tol={p['tol']}, "
                               f"max_iter={p['max_iter']}, status={res.status!r})")
     st = res.status
